@@ -20,7 +20,8 @@ import (
 
 const (
 	keyPanic     = "C18/api-panic"
-	keyCap       = "C18/page-cap"
+	keyCap       = "C18/page-cap"          // the list methods that lack the page-size check (suspected defect #13)
+	keyCapOther  = "C18/page-cap-exceeded" // any other method returning more than its advertised limit
 	keyFar       = "C18/far-page-not-empty"
 	keySlice     = "C18/slice"
 	keyCount     = "C18/count"
@@ -303,7 +304,7 @@ func (e *Env) CheckPage(k Call, o *ListObs, p PageSpec) {
 		c.Failf(keyCount, "%s: count=%d, the ledger holds %d", k, o.Count, p.WantCount)
 	}
 	if len(o.IDs) > int(p.Limit) {
-		if c.Failf(keyCap, "%s returned %d elements, advertised limit is %d", k, len(o.IDs), p.Limit) {
+		if c.Failf(capKey(k), "%s returned %d elements, advertised limit is %d", k, len(o.IDs), p.Limit) {
 			c.Class("known-page-cap-hit " + k.RPCName())
 		}
 	}
@@ -468,4 +469,17 @@ func clampInt(v, lo, hi int) int {
 		return hi
 	}
 	return v
+}
+
+// uncapped lists the methods that apply no page-size check at all (defect #13); only for them an
+// over-long page is the known finding.
+var uncapped = map[string]bool{"embedded.accelerator.getAll": true, "embedded.bridge.getAllWrapTokenRequests": true, "embedded.bridge.getAllUnsignedWrapTokenRequests": true,
+	"embedded.bridge.getAllWrapTokenRequestsByToAddress": true, "embedded.bridge.getAllWrapTokenRequestsByToAddressNetworkClassAndChainId": true,
+	"embedded.bridge.getAllUnwrapTokenRequests": true, "embedded.bridge.getAllUnwrapTokenRequestsByToAddress": true}
+
+func capKey(k Call) string {
+	if uncapped[k.RPCName()] {
+		return keyCap
+	}
+	return keyCapOther
 }
